@@ -71,18 +71,23 @@ def eval_overlap(tc, ip, mode, entry, nbatch, Wa, Wb):
 
     p = tc.params[ip]
     trial = gridmc.with_batch(gridmc.trial_for(tc, ip), nbatch)
+    J = gridmc.jitted
     if mode == "u":
         ja, jb = jnp.asarray(Wa), jnp.asarray(Wb)
-        if entry == "batched":
+        if entry == "eager":
             return np.asarray(trial.calc_overlap([ja, jb], p.wave_data))
-        return np.asarray(vmap(trial._calc_overlap, in_axes=(0, 0, None))(ja, jb, p.wave_data))
+        if entry == "batched":
+            return np.asarray(J(trial, "calc_overlap")([ja, jb], p.wave_data))
+        return np.asarray(J(trial, "_calc_overlap", (0, 0, None))(ja, jb, p.wave_data))
     jw = jnp.asarray(Wa)
-    if entry == "batched":
+    if entry == "eager":
         return np.asarray(trial.calc_overlap(jw, p.wave_data))
+    if entry == "batched":
+        return np.asarray(J(trial, "calc_overlap")(jw, p.wave_data))
     if entry == "single":
-        return np.asarray(vmap(trial._calc_overlap_restricted, in_axes=(0, None))(jw, p.wave_data))
+        return np.asarray(J(trial, "_calc_overlap_restricted", (0, None))(jw, p.wave_data))
     if entry == "r-vs-u":  # unrestricted entry point on the equal spin blocks
-        return np.asarray(vmap(trial._calc_overlap, in_axes=(0, 0, None))(
+        return np.asarray(J(trial, "_calc_overlap", (0, 0, None))(
             jw[:, :, : tc.na], jw[:, :, : tc.nb], p.wave_data))
     raise ValueError(entry)
 
@@ -131,7 +136,7 @@ def job(cfg):
             scale = np.abs(O_ref).max()
             if not np.isfinite(scale) or scale < 1e-6:
                 raise RuntimeError("reference overlap degenerate for %r" % (cfg,))
-            entries = [("batched", k) for k in bcs] + [("single", 1)]
+            entries = [("eager", 1)] + [("batched", k) for k in bcs] + [("single", 1)]
             if mode == "r" and tc.unrestricted_ok:
                 entries.append(("r-vs-u", 1))
             if ip > 0 and not thorough:
@@ -213,10 +218,10 @@ def replay(case):
     O_ref = (np.conj(p.ket) @ Phi)
     scale = np.abs(O_ref).max()
     sl = slice(i, i + 1)
-    O = eval_overlap(tc, ip, mode, "single" if cfg["entry"] == "batched" else cfg["entry"], 1,
+    O = eval_overlap(tc, ip, mode, "single" if cfg["entry"] in ("batched", "eager") else cfg["entry"], 1,
                      Wa[sl], None if Wb is None else Wb[sl])[0]
-    if cfg["entry"] == "batched":  # batch-order bugs need the whole batch
-        Ofull = eval_overlap(tc, ip, mode, "batched", cfg["n_batch"], Wa, Wb)
+    if cfg["entry"] in ("batched", "eager"):  # batch-order bugs need the whole batch
+        Ofull = eval_overlap(tc, ip, mode, cfg["entry"], cfg["n_batch"], Wa, Wb)
         O = Ofull[i]
     err = abs(O - O_ref[i]) / max(abs(O_ref[i]), 1e-3 * scale)
     return (not err <= TOL, dict(impl=O, ref=O_ref[i], relerr=float(err)))
